@@ -9,6 +9,8 @@ from ..core import FUNC, call_attr, calls_in, const, dotted, is_const, kwarg, no
 from .c01 import _fmt_in
 
 EXPLANATION = [
+    'C02.external-reset: outside PacketParser itself, parser.reset() is called only where a server transport accepts a new client (connection_made / on_connection): no per-message reset.',
+    'C02.delivery-order: no transport function that hands packets to a sink sorts, reverses or otherwise reorders them.',
     'C02.message-size: no websocket transport passes the websockets library a max_size below 65540 (type byte + 4-byte header + 0xFFFF data bytes): a maximum-length packet is never rejected by the carrier.',
     "C02.splitter-subclasses: the USB per-endpoint splitters (subclasses of PacketSplitter) define nothing but __init__: the framing is the base class's feed for every endpoint.",
     "C02.reader-cancel: the asynchronous reader's next_packet() (several reads per packet, no state kept across calls) is awaited directly at every call site, never under wait_for / a cancelling wrapper.",
@@ -382,7 +384,47 @@ def message_size(ctx):
     R.check(n >= 2, rule, 'bumble.transport.ws_* | websocket endpoints', f'{n} serve / connect calls', f'only {n} found')
 
 
+def delivery_order(ctx):
+    """Packets are handed to the sink in the order they were framed: no function of a transport that delivers packets
+    (`... .on_packet(...)`) sorts, reverses or otherwise reorders what it delivers."""
+    R, p = ctx.r, ctx.p
+    rule = 'C02.delivery-order'
+    n = 0
+    for mn, m in sorted(p.modules.items()):
+        if not mn.startswith('bumble.transport'):
+            continue
+        for fn in [x for x in ast.walk(m.tree) if isinstance(x, FUNC)]:
+            if not any(call_attr(c) == 'on_packet' for c in calls_in(fn)):
+                continue
+            n += 1
+            re_ = [c for c in calls_in(fn) if (dotted(c.func) or '') in ('sorted', 'reversed') or call_attr(c) in ('sort', 'reverse', 'appendleft')]
+            R.check(not re_, rule, p.qual_of(fn), 'delivers in arrival order', f'{fn.name} reorders what it delivers ({[norm(c)[:40] for c in re_][:2]}): packets of one stream reach the sink in another order than they were framed', f'{m.rel}:{fn.lineno}')
+    R.check(n >= 5, rule, 'bumble.transport | delivering functions', f'{n} functions hand packets to a sink', f'only {n} found')
+
+
+def external_reset(ctx):
+    """Outside the parser itself, its framing state is reset in exactly one situation: a server transport accepting a new
+    client (whose stream starts on a packet boundary).  A reset per received message / chunk throws away the head of every
+    packet that straddles two chunks."""
+    R, p = ctx.r, ctx.p
+    rule = 'C02.external-reset'
+    ALLOWED = ('connection_made', 'on_connection')
+    n = 0
+    for mn, m in sorted(p.modules.items()):
+        if not mn.startswith('bumble.transport'):
+            continue
+        for c in [x for x in ast.walk(m.tree) if isinstance(x, ast.Call) and isinstance(x.func, ast.Attribute) and x.func.attr == 'reset' and (dotted(x.func.value) or '').endswith('parser')]:
+            n += 1
+            fn = c
+            while fn is not None and not isinstance(fn, FUNC):
+                fn = getattr(fn, '_parent', None)
+            R.check(fn is not None and fn.name in ALLOWED, rule, f'{p.qual_of(c)} | {norm(c)}', 'a new client is being accepted', f'`{norm(c)}` resets the parser in {fn.name if fn is not None else "?"}: whatever part of a packet was received before is forgotten, the rest of that packet is framed as new packets', f'{m.rel}:{c.lineno}')
+    R.check(n >= 3, rule, 'bumble.transport | parser resets from outside', f'{n} sites, all on accepting a client', f'only {n} sites found')
+
+
 RULES = [
+    ('C02.external-reset', external_reset),
+    ('C02.delivery-order', delivery_order),
     ('C02.message-size', message_size),
     ('C02.splitter-subclasses', splitter_subclasses),
     ('C02.reader-cancel', reader_cancel),
